@@ -194,3 +194,7 @@ PROPERTY = Property(
          "equivariance and identical-team equality (1e-12), exactly [0.5, 0.5] for two identical teams, monotonicity in one member's mu (8 ulp); distinct by SHA-1",
     assumptions=["'identical teams' = equal member lists in the same order"],
 )
+
+from vf import opt as _opt  # noqa: E402
+
+PROPERTY.clauses.append(_opt.optimised("C09", next(c for c in PROPERTY.clauses if c.name == "distribution-symmetry-monotonicity"), quick=64, thorough=640))
